@@ -119,7 +119,8 @@ func (p *MultilineAction) Do(event *pipeline.Event) pipeline.ActionResult {
 	if !isEnd && !shouldSplit {
 		sizeAfterAppend := len(p.eventBuf) + len(logFragment)
 		// check buffer size before append
-		if p.maxEventSize == 0 || sizeAfterAppend < p.maxEventSize {
+		// once a chunk did not fit, the rest of the line is skipped even if a later chunk would fit again
+		if p.maxEventSize == 0 || (!p.skipNextEvent && sizeAfterAppend < p.maxEventSize) {
 			p.eventBuf = append(p.eventBuf, logFragment[1:logFragmentLen-1]...)
 		} else if !p.skipNextEvent {
 			if p.controller != nil {
@@ -139,7 +140,9 @@ func (p *MultilineAction) Do(event *pipeline.Event) pipeline.ActionResult {
 
 			if p.cutOffEventByLimit {
 				offset := sizeAfterAppend - p.maxEventSize
-				p.eventBuf = append(p.eventBuf, logFragment[1:logFragmentLen-1-offset]...)
+				// the fragment is an escaped string: cut it between two escape sequences, never inside one
+				fragment := logFragment[1 : logFragmentLen-1]
+				p.eventBuf = append(p.eventBuf, fragment[:escapedCutKeep(fragment, len(fragment)-offset)]...)
 				p.cutOffEvent = true
 
 				p.logger.Errorf("event chunk will be cut off due to max_event_size, source_name=%s, namespace=%s, pod=%s", event.SourceName, ns, pod)
@@ -201,7 +204,7 @@ func (p *MultilineAction) Do(event *pipeline.Event) pipeline.ActionResult {
 		}
 	}
 
-	if len(p.eventBuf) > 1 {
+	if len(p.eventBuf) > 1 || p.cutOffEvent {
 		if !p.cutOffEvent {
 			p.eventBuf = append(p.eventBuf, logFragment[1:logFragmentLen-1]...)
 		} else {
@@ -243,4 +246,31 @@ func (p *MultilineAction) resetLogBuf() {
 	p.eventBuf = p.eventBuf[:1]
 	p.eventSize = 0
 	p.cutOffEvent = false
+}
+
+// escapedCutKeep returns how many bytes of the escaped (JSON string) content s to keep so that at most
+// limit bytes remain and no escape sequence (\x, \uXXXX) is cut in two.
+func escapedCutKeep(s string, limit int) int {
+	if limit >= len(s) {
+		return len(s)
+	}
+	if limit < 0 {
+		return 0
+	}
+	i := 0
+	for i < limit {
+		if s[i] != '\\' {
+			i++
+			continue
+		}
+		n := 2
+		if i+1 < len(s) && s[i+1] == 'u' {
+			n = 6
+		}
+		if i+n > limit {
+			return i
+		}
+		i += n
+	}
+	return limit
 }
